@@ -62,13 +62,24 @@ def source(mm, style='metaclass'):
                 out.append(f'    {it[1]} = 42')
             else:
                 _, name, kind, args, nd = it
-                ps = [a if j < len(args) - nd else f'{a}={j}' for j, a in enumerate(args)]
+                ps = [a if j < len(args) - nd else f'{a}={["None", "0", "False", repr(""), str(j)][(j + len(name)) % 5]}' for j, a in enumerate(args)]
                 if kind == 'static':
                     out.append('    @staticmethod')
                 elif kind == 'class':
                     out.append('    @classmethod')
                 out.append(f"    def {name}({', '.join(ps)}):\n        return '{name}'")
-        if not items:
+        if getattr(mm, 'with_init', False):
+            # the constructor pyecoregen writes: own features as keyword-only arguments, the rest handed up
+            own = [(key, f) for (k_, key, f) in [it for it in items if it[0] == 'F'] if key == f.name]
+            sig = ''.join(f'{key}=None, ' for key, _f in own)
+            out.append(f'    def __init__(self, {"*, " if own else ""}{sig}**kwargs):')
+            out.append('        super().__init__(**kwargs)')
+            for key, f in own:
+                if f.many:
+                    out.append(f'        if {key}:\n            self.{key}.extend({key})')
+                else:
+                    out.append(f'        if {key} is not None:\n            self.{key} = {key}')
+        elif not items:
             out.append('    pass')
         out.append('')
     explicit = getattr(mm, 'explicit', {})
